@@ -3,27 +3,34 @@ import LyModel.Val.LemmasInst
 # C03 — instance-identifier: canonical form and equality
 
 Property theorems about the model `LyModel/Val/InstId.lean` of `src/plugins_types/instanceid.c` (store = `ly_path_parse` with
-`LY_PATH_BEGIN_ABSOLUTE` / `LY_PATH_PREFIX_STRICT_INHERIT` + `ly_path_compile`, canonical form = `instanceid_path2str` in JSON
-format, compare = `lyplg_type_compare_simple`, sort = `lyplg_type_sort_simple`).  The model is tied to the code by
-`tools/checks/valinst.py` on every run.  Statements only; lemmas are in `LyModel/Val/LemmasInst.lean`.
+`LY_PATH_BEGIN_ABSOLUTE` / `LY_PATH_PREFIX_STRICT_INHERIT` + `ly_path_compile` with the predicate values stored through the
+plug-in of the key / leaf-list type, canonical form = `instanceid_path2str` in JSON format, compare =
+`lyplg_type_compare_simple`, sort = `lyplg_type_sort_simple`).  The model is tied to the code by `tools/checks/valinst.py` on
+every run.  Two statements of the source are read by `tools/extractors/valinst.py` (`Generated.instVarRefused` — F421,
+`Generated.instKeysSchemaOrder` — F422); the theorems below are stated for the pinned (`false`) and the repaired (`true`)
+variant explicitly, whatever the source is at the moment.  Statements only; lemmas are in `LyModel/Val/LemmasInst.lean`.
 -/
 namespace LyModel.Props.C03InstId
 open LyModel LyModel.Path LyModel.Val LyModel.Val.InstId
 
-/-- schema of the witnesses: module `ma` with the list `l` (keys `k1`, `k2`; a leaf `x` and a state leaf-list `sl` of module `mb`
-    augmented into it; a container `c` with the leaf `y`) and the key-less list `kl` -/
-def exSchema : List SNode :=
-  [.mk [109, 97] [108] (.list true)
-    [.mk [109, 97] [107, 49] (.leaf true) [], .mk [109, 97] [107, 50] (.leaf true) [],
-     .mk [109, 97] [99] .inner [.mk [109, 97] [121] (.leaf false) []],
-     .mk [109, 98] [120] (.leaf false) [], .mk [109, 98] [115, 108] (.leaflist false) []],
-   .mk [109, 97] [107, 108] .keyless [.mk [109, 97] [121] (.leaf false) []]]
+/-- schema of the witnesses: module `ma` with the list `l` (string keys `k1`, `k2`; a container `c` with the leaf `y`; a leaf
+    `x` and a state leaf-list `sl` of module `mb` augmented into it), the key-less list `kl`, and the list `tl` with the `int8`
+    key `n` and the leaf-list `fl` of type `uint8 { range "1..10"; }` -/
+def exSchema : List TNode :=
+  [.mk [109, 97] [108] (.list true) none
+    [.mk [109, 97] [107, 49] (.leaf true) (some (.str [])) [], .mk [109, 97] [107, 50] (.leaf true) (some (.str [])) [],
+     .mk [109, 97] [99] .inner none [.mk [109, 97] [121] (.leaf false) (some (.str [])) []],
+     .mk [109, 98] [120] (.leaf false) (some (.str [])) [], .mk [109, 98] [115, 108] (.leaflist false) (some (.str [])) []],
+   .mk [109, 97] [107, 108] .keyless none [.mk [109, 97] [121] (.leaf false) (some (.str [])) []],
+   .mk [109, 97] [116, 108] (.list true) none
+    [.mk [109, 97] [110] (.leaf true) (some (.int .int8 [])) [],
+     .mk [109, 97] [102, 108] (.leaflist true) (some (.int .uint8 [(1, 10)])) []]]
 
 /-- `/ma:l[k2="it's"][k1=7]/mb:sl[ 02 ]` -/
 def exValue1 : Bytes :=
   [47, 109, 97, 58, 108, 91, 107, 50, 61, 34, 105, 116, 39, 115, 34, 93, 91, 107, 49, 61, 55, 93, 47, 109, 98, 58, 115, 108, 91, 32, 48, 50, 32, 93]
 
-/-- its canonical form `/ma:l[k2="it's"][k1='7']/mb:sl[2]` -/
+/-- its canonical form on the pinned source `/ma:l[k2="it's"][k1='7']/mb:sl[2]` (keys as written) -/
 def exCanon1 : Bytes :=
   [47, 109, 97, 58, 108, 91, 107, 50, 61, 34, 105, 116, 39, 115, 34, 93, 91, 107, 49, 61, 39, 55, 39, 93, 47, 109, 98, 58, 115, 108, 91, 50, 93]
 
@@ -31,24 +38,35 @@ def exCanon1 : Bytes :=
 def exValueAB : Bytes := [47, 109, 97, 58, 108, 91, 107, 49, 61, 39, 97, 39, 93, 91, 107, 50, 61, 39, 98, 39, 93, 47, 99, 47, 121]
 def exValueBA : Bytes := [47, 109, 97, 58, 108, 91, 107, 50, 61, 39, 98, 39, 93, 91, 107, 49, 61, 39, 97, 39, 93, 47, 99, 47, 121]
 
+/-- `/ma:tl[n=' +07 ']/fl[.=010]` (typed key and leaf-list) and its canonical form `/ma:tl[n='7']/fl[.='10']` -/
+def exTyped : Bytes :=
+  [47, 109, 97, 58, 116, 108, 91, 110, 61, 39, 32, 43, 48, 55, 32, 39, 93, 47, 102, 108, 91, 46, 61, 48, 49, 48, 93]
+def exTypedCanon : Bytes :=
+  [47, 109, 97, 58, 116, 108, 91, 110, 61, 39, 55, 39, 93, 47, 102, 108, 91, 46, 61, 39, 49, 48, 39, 93]
+
+/-- `/ma:l[k1=$v][k2='b']` -/
+def exVar : Bytes := [47, 109, 97, 58, 108, 91, 107, 49, 61, 36, 118, 93, 91, 107, 50, 61, 39, 98, 39, 93]
+
 /-- **instid_canonical_prefixes.** The canonical string is the concatenation of one segment `/[module:]name predicates` per
     compiled node, and the module prefix is printed on the first node and on exactly those later nodes whose module differs
-    from the module of the node before (RFC 7951 sec. 6.11 name rule, which RFC 7950 / libyang take as the canonical form). -/
-theorem instid_canonical_prefixes (cs : List CStep) :
+    from the module of the node before (RFC 7951 sec. 6.11 name rule, which RFC 7950 / libyang take as the canonical form);
+    for either order of the key predicates. -/
+theorem instid_canonical_prefixes (ks : Bool) (cs : List CStep) :
     ∃ flags : List Bool, flags.length = cs.length ∧
-      canonInstId cs = (List.zipWith seg cs flags).flatten ∧
+      canonInstIdWith ks cs = (List.zipWith (seg ks) cs flags).flatten ∧
       (cs ≠ [] → flags[0]? = some true) ∧
       (∀ (i : Nat) (a b : CStep), cs[i]? = some a → cs[i + 1]? = some b → flags[i + 1]? = some (a.mod != b.mod)) := by
-  refine ⟨modChanges none cs, modChanges_length cs none, canonSteps_eq_segs cs none, ?_, fun i a b => modChanges_succ cs none i a b⟩
+  refine ⟨modChanges none cs, modChanges_length cs none, canonSteps_eq_segs ks cs none, ?_, fun i a b => modChanges_succ cs none i a b⟩
   intro h
   cases cs with
   | nil => exact absurd rfl h
   | cons c r => rfl
 
-/-- non-vacuity: a stored three-node value over two modules (`ma:l`, `c` in `ma`, …) — the flags of `/ma:l[…]/mb:sl[2]` are
-    `[true, true]`, those of `/ma:l[…]/c/y` are `[true, false, false]` -/
-example : (storeInstId exSchema exValue1).toOption.map (fun cs => (canonInstId cs, modChanges none cs)) = some (exCanon1, [true, true]) ∧
-    (storeInstId exSchema exValueAB).toOption.map (fun cs => (canonInstId cs, modChanges none cs)) = some (exValueAB, [true, false, false]) := by
+/-- non-vacuity: stored values over two modules — the flags of `/ma:l[…]/mb:sl[2]` are `[true, true]`, those of `/ma:l[…]/c/y`
+    are `[true, false, false]`; the typed value is printed with the canonical key / leaf-list values -/
+example : (storeInstIdWith false exSchema exValue1).toOption.map (fun cs => (canonInstIdWith false cs, modChanges none cs)) = some (exCanon1, [true, true]) ∧
+    (storeInstIdWith false exSchema exValueAB).toOption.map (fun cs => (canonInstIdWith false cs, modChanges none cs)) = some (exValueAB, [true, false, false]) ∧
+    (storeInstIdWith true exSchema exTyped).toOption.map (fun cs => canonInstIdWith true cs) = some exTypedCanon := by
   decide +kernel
 
 /-- **instid_eq_iff_canon_eq.** The compare callback answers "equal" exactly for values with the same canonical string, and
@@ -61,11 +79,10 @@ theorem instid_eq_iff_canon_eq (a b c : List CStep) :
     (sortInstId a b ≤ 0 → sortInstId b c ≤ 0 → sortInstId a c ≤ 0) :=
   ⟨cmpEq_iff a b, (sort_zero_iff a b).trans (cmpEq_iff a b).symm, sort_antisymm a b, sort_trans a b c⟩
 
-/-- non-vacuity: the value and its canonical form are stored as equal values; the two key orders as unequal, ordered ones -/
-example : (match storeInstId exSchema exValue1, storeInstId exSchema exCanon1 with
-      | .ok a, .ok b => cmpEqInstId a b && sortInstId a b == 0 | _, _ => false) = true ∧
-    (match storeInstId exSchema exValueAB, storeInstId exSchema exValueBA with
-      | .ok a, .ok b => !cmpEqInstId a b && sortInstId a b == -1 | _, _ => false) = true := by
+/-- non-vacuity: the value and its canonical form are stored as equal values (either variant of the source) -/
+example : ∀ ks ∈ [false, true], (match storeInstIdWith false exSchema exValue1 with
+      | .ok a => (match storeInstIdWith false exSchema (canonInstIdWith ks a) with | .ok b => cmpEqInstIdWith ks a b | _ => false)
+      | _ => false) = true := by
   decide +kernel
 
 /-- two compiled paths name the same instance: same nodes, and per node the same predicate up to the order of the keys -/
@@ -75,49 +92,142 @@ def samePred : CPred → CPred → Bool
 
 def SameInstance : List CStep → List CStep → Bool
   | [], [] => true
-  | a :: r, b :: s => a.mod == b.mod && a.name == b.name && samePred a.pred b.pred && SameInstance r s
+  | a :: r, b :: s => a.mod == b.mod && a.name == b.name && a.keyNames == b.keyNames && samePred a.pred b.pred && SameInstance r s
   | _, _ => false
 
-/-- **instid_eq_same_instance** (full statement): values that identify the same instance are equal.  FALSE for the code: the
-    canonical string keeps the key predicates in the order they were written, and equality is equality of canonical strings
-    (`lyplg_type_compare_simple`), so `/ma:l[k1='a'][k2='b']/c/y` and `/ma:l[k2='b'][k1='a']/c/y` are different values (both
-    can sit in one leaf-list, a `must`/`when` comparison of the two is false). -/
-def EqSameInstance : Prop :=
-  ∀ (schema : List SNode) (s1 s2 : Bytes) (a b : List CStep), storeInstId schema s1 = .ok a → storeInstId schema s2 = .ok b →
-    SameInstance a b = true → cmpEqInstId a b = true
+/-- **instid_eq_same_instance** (full statement, per variant `ks` of `instanceid_path2str`): stored values that identify the
+    same instance are equal.  (`KeysDistinct` is what the parser guarantees for a stored value — "Duplicate predicate key" —;
+    it is a hypothesis here, not derived.) -/
+def EqSameInstance (ks : Bool) : Prop :=
+  ∀ (schema : List TNode) (s1 s2 : Bytes) (a b : List CStep), storeInstIdWith false schema s1 = .ok a → storeInstIdWith false schema s2 = .ok b →
+    KeysDistinct a → SameInstance a b = true → cmpEqInstIdWith ks a b = true
 
-theorem instid_eq_same_instance_fails : ¬ EqSameInstance := by
+/-- FALSE for the pinned source (F422): the canonical string keeps the key predicates in the order they were written, and
+    equality is equality of canonical strings, so `/ma:l[k1='a'][k2='b']/c/y` and `/ma:l[k2='b'][k1='a']/c/y` are different
+    values (both can sit in one leaf-list). -/
+theorem instid_eq_same_instance_fails : ¬ EqSameInstance false := by
   intro h
-  have hv : (match storeInstId exSchema exValueAB, storeInstId exSchema exValueBA with
-      | .ok a, .ok b => SameInstance a b && !cmpEqInstId a b | _, _ => false) = true := by decide +kernel
-  cases ha : storeInstId exSchema exValueAB with
+  have hv : (match storeInstIdWith false exSchema exValueAB, storeInstIdWith false exSchema exValueBA with
+      | .ok a, .ok b => SameInstance a b && !cmpEqInstIdWith false a b &&
+          decide (a = [⟨[109, 97], [108], .list true, [[107, 49], [107, 50]], .keys [([107, 49], [97]), ([107, 50], [98])]⟩,
+                       ⟨[109, 97], [99], .inner, [], .none⟩, ⟨[109, 97], [121], .leaf false, [], .none⟩])
+      | _, _ => false) = true := by decide +kernel
+  cases ha : storeInstIdWith false exSchema exValueAB with
   | error e => rw [ha] at hv; simp at hv
   | ok a =>
-    cases hb : storeInstId exSchema exValueBA with
+    cases hb : storeInstIdWith false exSchema exValueBA with
     | error e => rw [ha, hb] at hv; simp at hv
     | ok b =>
       rw [ha, hb] at hv
-      simp only [Bool.and_eq_true, Bool.not_eq_true'] at hv
-      have := h exSchema exValueAB exValueBA a b ha hb hv.1
-      rw [hv.2] at this
+      simp only [Bool.and_eq_true, Bool.not_eq_true', decide_eq_true_eq] at hv
+      obtain ⟨⟨hs, hc⟩, hav⟩ := hv
+      have hd : KeysDistinct a := by
+        subst hav
+        simp [KeysDistinct]
+      have := h exSchema exValueAB exValueBA a b ha hb hd hs
+      rw [hc] at this
       cases this
 
-/-- the part that holds: equal compiled paths are equal values, and equal values have the same number of segments' worth
-    of text — in particular equality never identifies a value with one whose canonical string differs -/
-theorem instid_eq_same_instance_partial (a b : List CStep) (h : a = b) : cmpEqInstId a b = true := by
-  subst h; exact (cmpEq_iff a a).mpr rfl
+/-- TRUE once the key predicates are printed in the order of the keys (F422 repaired). -/
+theorem instid_eq_same_instance_repaired : EqSameInstance true := by
+  intro schema s1 s2 a b _ _ hd hs
+  apply (cmpEqWith_iff true a b).mpr
+  unfold canonInstIdWith
+  suffices h : ∀ (a b : List CStep) (prev : Option Bytes), KeysDistinct a → SameInstance a b = true →
+      canonStepsWith true prev a = canonStepsWith true prev b from h a b none hd hs
+  intro a
+  induction a with
+  | nil =>
+    intro b prev _ hs
+    cases b with
+    | nil => rfl
+    | cons y s => simp [SameInstance] at hs
+  | cons x r ih =>
+    intro b prev hd hs
+    cases b with
+    | nil => simp [SameInstance] at hs
+    | cons y s =>
+      simp only [SameInstance, Bool.and_eq_true, beq_iff_eq] at hs
+      obtain ⟨⟨⟨⟨hm, hn⟩, hk⟩, hp⟩, hr⟩ := hs
+      obtain ⟨hdx, hdr⟩ := hd
+      have hname : canonName prev x = canonName prev y := by simp [canonName, hm, hn]
+      have hpred : canonPredWith true x.keyNames x.pred = canonPredWith true y.keyNames y.pred := by
+        rw [← hk]
+        cases hx : x.pred with
+        | keys k1 =>
+          cases hy : y.pred with
+          | keys k2 =>
+            rw [hx, hy] at hp
+            rw [hx] at hdx
+            simp only [samePred, List.isPerm_iff] at hp
+            simp only [canonPredWith, orderKeys_perm hp hdx]
+          | none => rw [hx, hy] at hp; simp [samePred] at hp
+          | dot v => rw [hx, hy] at hp; simp [samePred] at hp
+          | pos n => rw [hx, hy] at hp; simp [samePred] at hp
+        | none => rw [hx] at hp; simp only [samePred, beq_iff_eq] at hp; rw [← hp]
+        | dot v => rw [hx] at hp; simp only [samePred, beq_iff_eq] at hp; rw [← hp]
+        | pos n => rw [hx] at hp; simp only [samePred, beq_iff_eq] at hp; rw [← hp]
+      simp only [canonStepsWith, hname, hpred, ← hm, ih s (some x.mod) hdr hr]
 
-example : cmpEqInstId [⟨[109, 97], [108], .list true, [[107, 49]], .keys [([107, 49], [97])]⟩]
+/-- non-vacuity of the repaired statement: the two key orders are stored, name the same instance, and are equal under the
+    repaired printer -/
+example : (match storeInstIdWith false exSchema exValueAB, storeInstIdWith false exSchema exValueBA with
+      | .ok a, .ok b => SameInstance a b && cmpEqInstIdWith true a b && (canonInstIdWith true b == exValueAB) | _, _ => false) = true := by
+  decide +kernel
+
+/-- the part that holds for either variant: equal compiled paths are equal values -/
+theorem instid_eq_same_instance_partial (ks : Bool) (a b : List CStep) (h : a = b) : cmpEqInstIdWith ks a b = true := by
+  subst h; exact (cmpEqWith_iff ks a a).mpr rfl
+
+example : cmpEqInstIdWith false [⟨[109, 97], [108], .list true, [[107, 49]], .keys [([107, 49], [97])]⟩]
     [⟨[109, 97], [108], .list true, [[107, 49]], .keys [([107, 49], [97])]⟩] = true :=
-  instid_eq_same_instance_partial _ _ rfl
+  instid_eq_same_instance_partial _ _ _ rfl
+
+/-- **instid_no_internal_error** (full statement, per variant `vr` of `lyplg_type_lypath_new`): storing a value never ends in an
+    internal error. -/
+def NoInternalError (vr : Bool) : Prop :=
+  ∀ (schema : List TNode) (s : Bytes), result (storeInstIdWith vr schema s) ≠ .inl .Internal
+
+/-- FALSE for the pinned source (F421): `/ma:l[k1=$v][k2='b']` is parsed and compiled and `instanceid_path2str` hits `LOGINT`. -/
+theorem instid_no_internal_error_fails : ¬ NoInternalError false := by
+  intro h
+  exact h exSchema exVar (by decide +kernel)
+
+/-- TRUE once a variable reference in a value is a syntax error (F421 repaired). -/
+theorem instid_no_internal_error_repaired : NoInternalError true := by
+  intro schema s hres
+  unfold storeInstIdWith at hres
+  split at hres
+  · simp [result] at hres
+  · rename_i steps _
+    by_cases hv : (steps.any fun st => predHasVar st.pred) = true
+    · simp [hv, result] at hres
+    · simp only [hv, Bool.and_false, Bool.false_eq_true, if_false] at hres
+      split at hres
+      · simp [result] at hres
+      · rename_i cs _
+        cases ht : typeSteps schema cs with
+        | error e =>
+          rw [ht] at hres
+          have := typeSteps_err cs schema e ht
+          subst this
+          simp [result] at hres
+        | ok v => rw [ht] at hres; simp [result] at hres
+
+/-- non-vacuity: on the repaired source the same value is a syntax error, and the values without a variable are stored as before -/
+example : result (storeInstIdWith true exSchema exVar) = .inl .Syntax ∧
+    result (storeInstIdWith true exSchema exValueAB) = result (storeInstIdWith false exSchema exValueAB) := by
+  decide +kernel
 
 /-- **instid_store_verdicts.** What the store callback rejects besides what `lyd_find_path` rejects for the same string: a
     relative path, a repeated module prefix, a prefix on a key (all syntax errors); and what it accepts is a compiled path that
-    `Path.compileSteps` (the compiler C15 is about) produced for the parsed steps. -/
-theorem instid_store_verdicts (schema : List SNode) (s : Bytes) (cs : List CStep) (h : storeInstId schema s = .ok cs) :
-    ∃ steps, parsePath s = some (true, steps) ∧ strictSteps none steps = true ∧
-      compileSteps true schema none none (devar steps) = .ok cs ∧ (steps.any fun st => predHasVar st.pred) = false := by
-  unfold storeInstId at h
+    `Path.compileSteps` (the compiler C15 is about) produced for the parsed steps, with every predicate value replaced by the
+    canonical form of the value its type stores; no accepted value has a variable reference. -/
+theorem instid_store_verdicts (vr : Bool) (schema : List TNode) (s : Bytes) (cs : List CStep) (h : storeInstIdWith vr schema s = .ok cs) :
+    ∃ steps cs0, parsePath s = some (true, steps) ∧ strictSteps none steps = true ∧
+      compileSteps true (TNode.toSs schema) none none steps = .ok cs0 ∧ typeSteps schema cs0 = .ok cs ∧
+      (steps.any fun st => predHasVar st.pred) = false := by
+  unfold storeInstIdWith at h
   cases hp : parseInst s with
   | none => rw [hp] at h; cases h
   | some steps =>
@@ -137,41 +247,51 @@ theorem instid_store_verdicts (schema : List SNode) (s : Bytes) (cs : List CStep
         · rw [if_pos hs] at hp
           have hst : st = steps := by simpa using hp
           subst hst
-          cases hc : compileSteps true schema none none (devar st) with
-          | error e => rw [hc] at h; cases h
-          | ok cs' =>
-            rw [hc] at h
-            simp only at h
-            by_cases hv : (!cs'.all fun c => predValuesOk c.pred) = true
-            · rw [if_pos hv] at h; cases h
-            · rw [if_neg hv] at h
-              by_cases hx : (st.any fun st => predHasVar st.pred) = true
-              · rw [if_pos hx] at h; cases h
-              · rw [if_neg hx] at h
-                cases h
-                exact ⟨st, rfl, hs, hc, by simpa using hx⟩
+          by_cases hx : (st.any fun st => predHasVar st.pred) = true
+          · rw [hx] at h
+            cases vr with
+            | true => simp at h
+            | false =>
+              simp only [Bool.false_and, Bool.false_eq_true, if_false, if_true] at h
+              split at h
+              · cases h
+              · split at h <;> cases h
+          · simp only [hx, Bool.and_false, Bool.false_eq_true, if_false] at h
+            cases hc : compileSteps true (TNode.toSs schema) none none (devar st) with
+            | error e => rw [hc] at h; cases h
+            | ok cs' =>
+              rw [hc] at h
+              simp only at h
+              have hdv : devar st = st := devar_noVar st (by simpa using hx)
+              rw [hdv] at hc
+              exact ⟨st, cs', rfl, hs, hc, h, by simpa using hx⟩
         · rw [if_neg hs] at hp; cases hp
 
-/-- non-vacuity: `exValue1` is stored; the same string with the prefix repeated (`/ma:l[…]/ma:c`), a relative path, a prefixed
-    key and a variable reference are refused with the kinds the code reports -/
-example : (storeInstId exSchema exValue1).toOption.isSome = true ∧
+/-- non-vacuity: `exValue1` is stored; the same list with the prefix repeated (`/ma:l[…]/ma:c`), a relative path, a prefixed key
+    are syntax errors; a missing key, a key value outside its type (`n='128'` for `int8`) and a leaf-list value outside its
+    range are semantic errors -/
+example : (storeInstIdWith false exSchema exValue1).toOption.isSome = true ∧
     -- `/ma:l[k1='a'][k2='b']/ma:c`
-    result (storeInstId exSchema [47, 109, 97, 58, 108, 91, 107, 49, 61, 39, 97, 39, 93, 91, 107, 50, 61, 39, 98, 39, 93, 47, 109, 97, 58, 99]) = .inl .Syntax ∧
+    result (storeInstIdWith false exSchema [47, 109, 97, 58, 108, 91, 107, 49, 61, 39, 97, 39, 93, 91, 107, 50, 61, 39, 98, 39, 93, 47, 109, 97, 58, 99]) = .inl .Syntax ∧
     -- `ma:kl[1]`
-    result (storeInstId exSchema [109, 97, 58, 107, 108, 91, 49, 93]) = .inl .Syntax ∧
+    result (storeInstIdWith false exSchema [109, 97, 58, 107, 108, 91, 49, 93]) = .inl .Syntax ∧
     -- `/ma:l[ma:k1='a'][k2='b']`
-    result (storeInstId exSchema [47, 109, 97, 58, 108, 91, 109, 97, 58, 107, 49, 61, 39, 97, 39, 93, 91, 107, 50, 61, 39, 98, 39, 93]) = .inl .Syntax ∧
-    -- `/ma:l[k1=$v][k2='b']`
-    result (storeInstId exSchema [47, 109, 97, 58, 108, 91, 107, 49, 61, 36, 118, 93, 91, 107, 50, 61, 39, 98, 39, 93]) = .inl .Internal ∧
+    result (storeInstIdWith false exSchema [47, 109, 97, 58, 108, 91, 109, 97, 58, 107, 49, 61, 39, 97, 39, 93, 91, 107, 50, 61, 39, 98, 39, 93]) = .inl .Syntax ∧
     -- `/ma:l[k1='a']` (a key is missing)
-    result (storeInstId exSchema [47, 109, 97, 58, 108, 91, 107, 49, 61, 39, 97, 39, 93]) = .inl .Semantic := by
+    result (storeInstIdWith false exSchema [47, 109, 97, 58, 108, 91, 107, 49, 61, 39, 97, 39, 93]) = .inl .Semantic ∧
+    -- `/ma:tl[n='128']`
+    result (storeInstIdWith false exSchema [47, 109, 97, 58, 116, 108, 91, 110, 61, 39, 49, 50, 56, 39, 93]) = .inl .Semantic ∧
+    -- `/ma:tl[n=1]/fl[.=11]`
+    result (storeInstIdWith false exSchema [47, 109, 97, 58, 116, 108, 91, 110, 61, 49, 93, 47, 102, 108, 91, 46, 61, 49, 49, 93]) = .inl .Semantic := by
   decide +kernel
 
-/-- **instid_canon_idempotent**, checked instances (the general statement — storing the canonical string of a stored value
-    gives the same compiled path — is not proved here; the check evaluates it on the implementation for every accepted value) -/
-example : ∀ s ∈ [exValue1, exCanon1, exValueAB, exValueBA],
-    (match storeInstId exSchema s with
-     | .ok cs => decide (result (storeInstId exSchema (canonInstId cs)) = .inr cs) && decide (result (unlybInstId exSchema (lybInstId cs)) = .inr cs)
+/-- **instid_canon_idempotent**, checked instances for both printers (the general statement — storing the canonical string of
+    a stored value gives a value with the same canonical string, and the same compiled path when the keys are printed as
+    written — is not proved here; the check evaluates it on the implementation for every accepted value) -/
+example : ∀ s ∈ [exValue1, exCanon1, exValueAB, exValueBA, exTyped, exTypedCanon],
+    (match storeInstIdWith false exSchema s with
+     | .ok cs => decide (result (storeInstIdWith false exSchema (canonInstIdWith false cs)) = .inr cs) &&
+        (match storeInstIdWith false exSchema (canonInstIdWith true cs) with | .ok cs' => canonInstIdWith true cs' == canonInstIdWith true cs | _ => false)
      | .error _ => false) = true := by
   decide +kernel
 
